@@ -290,6 +290,18 @@ func NodeLeaves(n *Node, _ NoArgs) []Leaf {
 	return out
 }
 func NodeThing(n *Node, _ NoArgs) *Thing { return n.W.thingFrom(n.W.H("Node", n.Id, "thing", 0)) }
+
+// NodeBlob is a byte string; for some nodes a nil one, for some an empty one.
+func NodeBlob(n *Node, _ NoArgs) []byte {
+	h := n.W.H("Node", n.Id, "blob", 0)
+	switch h % 4 {
+	case 0:
+		return nil
+	case 1:
+		return []byte{}
+	}
+	return []byte(fmt.Sprintf("b%d", h>>8%9))
+}
 func NodeSolo(n *Node, _ NoArgs) *Solo {
 	h := n.W.H("Node", n.Id, "solo", 0)
 	if h%4 == 0 {
@@ -413,7 +425,7 @@ func RootNodes(w *World, a IdsArgs) []*Node {
 }
 func RootAll(w *World, _ NoArgs) []*Node {
 	k := w.N
-	if k > 9 {
+	if k > 9 && w.N <= 1000 { // a world of more than 1000 nodes lists them all
 		k = 9
 	}
 	out := make([]*Node, 0, k)
